@@ -388,7 +388,7 @@ def run_crashcut(case, ctx):
 
 def subs(tier):
     return [
-        Sub("crashcut", run_crashcut, strategy=archive_case, quick=16, thorough=480, shards_quick=8,
+        Sub("crashcut", run_crashcut, strategy=archive_case, quick=16, thorough=480, shards_quick=16,
             shards_thorough=16, timeout_quick=600),
     ]
 
